@@ -254,7 +254,7 @@ fn inputs_for(op: &Op, tier: Tier, seed: u64) -> Vec<Vec<V>> {
     }
     // diagonals with offsets 0, 1, 3: every class in every position, equal and unequal operands
     let m = per_pos.iter().map(|a| a.len()).max().unwrap_or(1);
-    for shift in [0usize, 1, 3] {
+    for shift in [0usize, 1] {
         for d in 0..m {
             let t: Vec<V> = per_pos.iter().enumerate().map(|(i, a)| a[(d + i * shift) % a.len()].clone()).collect();
             if !out.contains(&t) {
@@ -348,7 +348,16 @@ fn main() {
     // ---- phase 2: 1-deviation faults in propagate mode
     let faults = vgad::default_faults(seed);
     let faults: Vec<_> = if tier.is_thorough() { faults } else { faults.into_iter().filter(|(n, _)| ["+1", "zero", "1-v", "random"].contains(n)).collect() };
-    let mut fcases: Vec<(String, (Case, Vec<u64>))> = vec![];
+    let mut fcases: Vec<(String, (Case, Vec<u64>, bool))> = vec![];
+    let is_distinct = |c: &Case| {
+        let vals: Vec<String> = c.ins.iter().map(|v| v.show()).collect();
+        let mut d = vals.clone();
+        d.sort();
+        d.dedup();
+        d.len() == vals.len() && !vals.iter().any(|v| v == "0x0" || v == "0")
+    };
+    let distinct_ops: std::collections::HashSet<String> =
+        cases.iter().filter(|(k, c)| nassign.contains_key(k) && is_distinct(c)).map(|(_, c)| format!("{:?}", c.op)).collect();
     // quick: one input tuple per operation (the first satisfiable one) gets the full index sweep
     let mut seen_ops: std::collections::HashSet<String> = Default::default();
     for (key, c) in &cases {
@@ -362,24 +371,32 @@ fn main() {
             d.dedup();
             d.len() == vals.len() && !vals.iter().any(|v| v == "0x0" || v == "0")
         };
-        if !tier.is_thorough() && !seen_ops.insert(format!("{:?}|{distinct}", c.op)) {
-            continue;
+        if !tier.is_thorough() {
+            // one tuple per operation: the distinct-operand one if the operation has any
+            let has_distinct = distinct_ops.contains(&format!("{:?}", c.op));
+            if distinct != has_distinct || !seen_ops.insert(format!("{:?}", c.op)) {
+                continue;
+            }
         }
         let idxs: Vec<u64> = (0..*n).collect();
         for (ci, chunk) in idxs.chunks(24).enumerate() {
-            fcases.push((format!("{key}#{ci}"), (c.clone(), chunk.to_vec())));
+            fcases.push((format!("{key}#{ci}"), (c.clone(), chunk.to_vec(), distinct)));
         }
     }
-    cx.run_cases("faults", &fcases, |(c, idxs)| {
+    // quick: the first tuple of an operation gets {+1, random}, the distinct-operand tuple gets
+    // {zero, 1-v}; thorough: every tuple gets the full fault set
+    let faults_a: Vec<_> = faults.iter().filter(|(n, _)| tier.is_thorough() || ["+1", "zero", "random"].contains(n)).cloned().collect();
+    let faults_b = faults_a.clone();
+    cx.run_cases("faults", &fcases, |(c, idxs, distinct)| {
         let mut out = CaseOut::batch();
-        vgad::explore_faults(c, kof(c).unwrap(), idxs, &faults, &mut out);
+        vgad::explore_faults(c, kof(c).unwrap(), idxs, if *distinct { &faults_b } else { &faults_a }, &mut out);
         out
     });
     // ---- phase 3: 2 deviations for small operations (N <= 40): all pairs x {+1, zero, 1-v}^2
     let f2: Vec<_> = vgad::default_faults(seed).into_iter().filter(|(n, _)| ["+1", "zero", "1-v"].contains(n)).collect();
     let mut pcases: Vec<(String, (Case, Vec<(u64, u64)>))> = vec![];
     let mut seen_ops: std::collections::HashSet<String> = Default::default();
-    let max_n = tier.pick(16u64, 40u64);
+    let max_n = tier.pick(12u64, 40u64);
     for (key, c) in &cases {
         let Some(n) = nassign.get(key) else { continue };
         if *n > max_n || *n < 2 {
@@ -469,7 +486,7 @@ fn main() {
             for (ci, chunk) in idxs.chunks(24).enumerate() {
                 sf.push((format!("{key}#{ci}"), (c.clone(), chunk.to_vec())));
             }
-            if *n <= tier.pick(24u64, 48u64) && *cnt == 1 {
+            if *n <= tier.pick(14u64, 48u64) && *cnt == 1 {
                 let mut pairs = vec![];
                 for i in 0..*n {
                     for j in i + 1..*n {
